@@ -219,6 +219,9 @@ func sqlOf(o Op) string {
 		return "SELECT n FROM `" + o.F + ".csv`"
 	case "update":
 		return "UPDATE `" + o.F + ".csv` SET n = n + 1"
+	case "insself":
+		// the new version is computed by a query over the table itself: the table is taken for update before the query reads it
+		return "INSERT INTO `" + o.F + ".csv` SELECT MAX(n) + 1 FROM `" + o.F + ".csv`"
 	case "fu":
 		return "SELECT n FROM `" + o.F + ".csv` FOR UPDATE"
 	case "fu2":
@@ -272,7 +275,7 @@ func (s *Sched) runProc(p *proc, started chan struct{}) {
 		}()
 		for _, o := range p.prog {
 			p.curOp = o.Op
-			if o.Op == "fu" || o.Op == "fu2" {
+			if o.Op == "fu" || o.Op == "fu2" || o.Op == "insself" {
 				p.curOp = "update" // SELECT .. FOR UPDATE takes its tables like a data-changing statement
 			}
 			r := pr.Exec(sqlOf(o))
